@@ -253,7 +253,7 @@ pub fn run(ctx: &Ctx, rep: &mut Report) {
         }
     }
     if ctx.replay.is_none() {
-        let inputs: Vec<crate::conform::Input> = seeds.iter().filter(|s| !s.is_impl && !s.traits.is_empty() && !s.attr.contains("dump")).flat_map(|s| Entry::BOTH.iter().map(move |&e| crate::conform::Input { entry: e, attr: s.attr.clone(), item: s.item.clone() })).collect();
+        let inputs: Vec<crate::conform::Input> = seeds.iter().filter(|s| !s.is_impl && !s.traits.is_empty() && !s.attr.contains("dump") && !s.item.contains("__FRAG")).flat_map(|s| Entry::BOTH.iter().map(move |&e| crate::conform::Input { entry: e, attr: s.attr.clone(), item: s.item.clone() })).collect();
         if rep.n_violations() == 0 {
             if let Err(e) = crate::conform::validate(rep, "c19p", &inputs) {
                 // for C19 the dump round trip through real rustc IS the property
